@@ -15,7 +15,7 @@ func init() {
 		ID:        "C04",
 		Roots:     []string{"overlord/state", "overlord"},
 		Technique: "dirty-bit discipline as an interprocedural must-precede analysis (every store to a field that MarshalJSON persists is preceded by State.writing() in the function or at every call site of the helper), guarded-sink on State.Unlock, ordering in the task completion closure, who-may-clear of the modified flag",
-		Explanation: "Structural necessary conditions for 'a restart resumes without redoing finished work': (R1) the persisted fields are derived from the five MarshalJSON writers (C05); every mutation of one of them in package overlord/state (field store, map insert/delete, element store, customData.set) is preceded on every path by State.writing() in the same function or, for unexported helpers, at every call site (recursively), with a short reasoned exception table; (R2) State.Unlock clears `modified` only across backend.Checkpoint(data)==nil with data serialised before, and nothing else clears it; (R3) in the task completion closure the handler call precedes taking the state lock and every status store lies after Lock (the deferred Unlock checkpoints it); (R4) Ensure lets Doing/Undoing tasks without a tomb reach run (they are run again after a restart) while Ready tasks never do (C02-R2); (R5) the overlord wires the atomic-write backend into the state it loads.",
+		Explanation: "Structural necessary conditions for 'a restart resumes without redoing finished work': (R1) the persisted fields are derived from the five MarshalJSON writers (C05); every mutation of one of them in package overlord/state (field store, map insert/delete, element store, customData.set) is preceded on every path by State.writing() in the same function or, for unexported helpers, at every call site (recursively), with a short reasoned exception table; (R2) State.Unlock clears `modified` only across backend.Checkpoint(data)==nil with data serialised before, and nothing else clears it; (R3) in the task completion closure the handler call precedes taking the state lock and every status store lies after Lock (the deferred Unlock checkpoints it); (R4) Ensure lets Doing/Undoing tasks without a tomb reach run (they are run again after a restart) while Ready tasks never do (C02-R2); (R6) while the runner is stopping, a plain handler error of a do or undo handler never reaches SetStatus(Error)/abortLanes (it is turned into a Retry, so the interrupted work is resumed after the restart); (R5) the overlord wires the atomic-write backend into the state it loads.",
 		NotDecided: "idempotence of the handlers that are re-run; equality of outcomes with and without the restart.",
 		Run:        runC04,
 	})
@@ -317,6 +317,43 @@ func runC04(c *Ctx) {
 			}
 		}
 		c.Check(hasDeferUnlock, "overlord/state.(*TaskRunner).run$1#deferred-unlock", cl.Pos(), "the state Unlock (and with it the checkpoint) is deferred", "the completion closure does not defer state.Unlock: the new status may never be checkpointed")
+	}
+
+	// ---- R6
+	c.Rule("C04-R6", "G", "task completion closure: while the runner is stopping, a plain handler error never becomes Error status (SetStatus(Error) / abortLanes <= !r.stopped): the interrupted do or undo is retried after the restart", 2)
+	fStopped := P.Field("overlord/state.TaskRunner.stopped")
+	notStopped := Atom{Name: "!r.stopped", Match: func(cd Cond) Pol { return cd.BoolIs(VField(fStopped)).Flip() }}
+	cErrSt := P.Const("overlord/state.ErrorStatus")
+	// paths on which the first switch on tomb.Err() preserved the value (nil, *Retry, *Wait) cannot
+	// reach the error branch of the second switch (same value): they count as gated
+	tombErr := VRes(0, ToFn(P.FuncObj("gopkg.in/tomb.v2.(*Tomb).Err")))
+	preserved := Clause{notStopped,
+		Cmp("tomb.Err()==nil", tombErr, token.EQL, isNilVal),
+		TypeIs("tomb.Err().(*Retry)", tombErr, types.NewPointer(P.NamedType("overlord/state.Retry"))),
+		TypeIs("tomb.Err().(*Wait)", tombErr, types.NewPointer(P.NamedType("overlord/state.Wait"))),
+	}
+	// ... and a path that replaced the error by a freshly made &Retry{} takes the *Retry arm
+	retryPtr := types.NewPointer(P.NamedType("overlord/state.Retry"))
+	madeRetry := &GOpt{CutInstr: func(in ssa.Instruction) bool {
+		mi, ok := in.(*ssa.MakeInterface)
+		return ok && types.Identical(mi.X.Type(), retryPtr)
+	}}
+	nErr := 0
+	for _, cl := range run.AnonFuncs {
+		for _, sc := range CallSites(cl, P.FuncObj("overlord/state.(*Task).SetStatus")) {
+			if !VConstObj(cErrSt)(CallArgs(sc)[0]) {
+				continue
+			}
+			nErr++
+			c.Guarded(fmt.Sprintf("overlord/state.(*TaskRunner).run$1#error-status<=not-stopping#%d", nErr), cl, sc, []Clause{preserved}, madeRetry)
+		}
+		for i, ac := range CallSites(cl, P.FuncObj("overlord/state.(*TaskRunner).abortLanes")) {
+			nErr++
+			c.Guarded(fmt.Sprintf("overlord/state.(*TaskRunner).run$1#abort-lanes<=not-stopping#%d", i+1), cl, ac, []Clause{preserved}, madeRetry)
+		}
+	}
+	if nErr == 0 {
+		c.Undecided("overlord/state.(*TaskRunner).run$1#error-branch", run.Pos(), "no SetStatus(ErrorStatus)/abortLanes found in run's closures")
 	}
 
 	// ---- R4
